@@ -15,6 +15,7 @@ import (
 	"os"
 	"path/filepath"
 	"strings"
+	"time"
 
 	"github.com/schollz/progressbar/v3"
 )
@@ -48,8 +49,10 @@ type c06FR struct {
 	ext  string
 }
 
-func (f *c06FR) Open(string) (io.ReadCloser, error) { return io.NopCloser(bytes.NewReader(f.data)), nil }
-func (f *c06FR) GetExtension(string) string         { return f.ext }
+func (f *c06FR) Open(string) (io.ReadCloser, error) {
+	return io.NopCloser(bytes.NewReader(f.data)), nil
+}
+func (f *c06FR) GetExtension(string) string { return f.ext }
 
 func gz(b []byte) []byte {
 	var buf bytes.Buffer
@@ -211,6 +214,18 @@ func c06Run(c *Ctx) {
 		}
 	}
 	Flags{}.Apply()
+	switch c.Shard {
+	case 3:
+		c06Volume(c, 6000, Flags{})
+	case 4:
+		c06Volume(c, 6000, Flags{N: true, B: true, I: true, W: true, R: "<x>", F: []string{"shop"}})
+	case 5:
+		c06Volume(c, 6000, Flags{Z: "^(fld7|email)$"})
+	case 6:
+		if c.Thorough() {
+			c06Volume(c, 70000, Flags{W: true, F: []string{"shop"}})
+		}
+	}
 	c06CLI(c, alpha, cliLen, Flags{})
 	// the same sequences with name pseudonymisation on: the name table is the only state that outlives a line
 	fl := Flags{N: true, B: true, I: true, W: true, R: "<x>", F: []string{"shop"}}
@@ -219,6 +234,74 @@ func c06Run(c *Ctx) {
 	} else {
 		c06CLI(c, alpha[:5], cliLen, fl)
 	}
+}
+
+// c06Volume: one long file.  State that builds up during a run (name tables, caches) only shows after
+// thousands of lines: the i-th output line of a long run must equal what line i yields in a FRESH process.
+func c06Volume(c *Ctx, n int, fl Flags) {
+	dir := freshDir(c.Scratch, "c06vol")
+	var lines []string
+	for i := 0; i < n; i++ {
+		switch i % 5 {
+		case 0:
+			lines = append(lines, fmt.Sprintf(`{"t":{"$date":"2024-05-01T10:00:00.000+00:00"},"s":"I","c":"COMMAND","id":51803,"ctx":"conn%d","msg":"Slow query","attr":{"type":"command","ns":"shop.orders%d","command":{"find":"orders%d","filter":{"fld%d":"value %d","email":"user%d@example.com","ref":{"$oid":"5f1e2d3c4b5a69788796%04x"}},"$db":"shop"},"planSummary":"IXSCAN { fld%d: 1 }","durationMillis":%d}}`, i, i%700, i%700, i%900, i, i, i%65536, i%900, i))
+		case 1:
+			lines = append(lines, fmt.Sprintf(`{"t":{"$date":"2024-05-01T10:00:00.000+00:00"},"s":"I","c":"COMMAND","id":51803,"ctx":"conn%d","msg":"Slow query","attr":{"type":"command","ns":"shop.orders%d","command":{"aggregate":"orders%d","pipeline":[{"$match":{"fld%d":{"$in":["value %d",%d]}}},{"$group":{"_id":"$fld%d","n":{"$sum":1}}}],"cursor":{},"$db":"shop"},"durationMillis":%d}}`, i, i%700, i%700, (i+1)%900, i-1, i, (i+1)%900, i))
+		case 2:
+			lines = append(lines, fmt.Sprintf(`{"t":{"$date":"2024-05-01T10:00:02.000+00:00"},"s":"I","c":"NETWORK","id":22943,"ctx":"listener","msg":"Connection accepted","attr":{"remote":"192.168.%d.%d:51234","connectionId":%d}}`, i%250, i%199, i))
+		case 3:
+			lines = append(lines, fmt.Sprintf("not json %d", i))
+		default:
+			lines = append(lines, fmt.Sprintf(`{"t":{"$date":"2024-05-01T10:00:00.000+00:00"},"s":"I","c":"WRITE","id":51803,"ctx":"conn%d","msg":"Slow query","attr":{"type":"update","ns":"shop.orders%d","command":{"q":{"fld%d":"value %d"},"u":{"$set":{"fld%d":"value %d","when":{"$date":"2031-07-09T11:22:%02d.456Z"}}},"multi":false,"upsert":false},"durationMillis":%d}}`, i, i%700, i%900, i-4, (i+2)%900, i, i%60, i))
+		}
+	}
+	in := filepath.Join(dir, "volume.log")
+	os.WriteFile(in, []byte(strings.Join(lines, "\n")+"\n"), 0o644)
+	args := append([]string{"redact", in}, fl.CLIArgs("")...)
+	res, err := runCLI(CLIRun{Bin: c.CLI, Args: args, Dir: dir, Timeout: 600 * time.Second})
+	if err != nil || res.Exit != 0 {
+		c.Violate("volume:exit", fmt.Sprintf("a run over %d lines exits %d: %s", n, res.Exit, trunc(string(res.Stderr), 200)), 0, map[string]any{"kind": "c06volume", "lines": n, "flags": fl.String()}, nil)
+		return
+	}
+	outs := strings.Split(strings.TrimSuffix(string(res.Stdout), "\n"), "\n")
+	// expected count: every object line yields one line
+	var objIdx []int
+	for i := range lines {
+		if i%5 != 3 {
+			objIdx = append(objIdx, i)
+		}
+	}
+	if len(outs) != len(objIdx) {
+		c.Violate("volume:line-count", fmt.Sprintf("a run over %d lines (%d JSON objects) emits %d lines", n, len(objIdx), len(outs)), 0, map[string]any{"kind": "c06volume", "lines": n, "flags": fl.String()}, nil)
+		return
+	}
+	step := len(objIdx) / 150
+	if step < 1 {
+		step = 1
+	}
+	one := filepath.Join(dir, "one.log")
+	checked := 0
+	for k := 0; k < len(objIdx); k++ {
+		if k%step != 0 && k < len(objIdx)-60 {
+			continue
+		}
+		os.WriteFile(one, []byte(lines[objIdx[k]]+"\n"), 0o644)
+		r1, err := runCLI(CLIRun{Bin: c.CLI, Args: append([]string{"redact", one}, fl.CLIArgs("")...), Dir: dir})
+		if err != nil || r1.Exit != 0 {
+			continue
+		}
+		c.Eval(1)
+		checked++
+		if string(r1.Stdout) != outs[k]+"\n" {
+			c.Violate("volume:line-differs-from-fresh-process", fmt.Sprintf("output line %d of a %d-line run differs from what the same input line yields in a fresh process (flags [%s]): %s | %s", k+1, n, fl, trunc(outs[k], 300), trunc(string(r1.Stdout), 300)), int64(k),
+				map[string]any{"kind": "c06volume", "lines": n, "flags": fl.String(), "line": lines[objIdx[k]], "in_long_run": outs[k], "alone": string(r1.Stdout)}, nil)
+			break
+		}
+	}
+	c.P.Traces++
+	c.P.Transitions += int64(len(lines))
+	c.Count("volume_lines_compared_with_fresh_process", int64(checked))
+	c.Distinct(fmt.Sprintf("volume|%d|%s", n, fl))
 }
 
 // CLI channels: input {file, gz, stdin} x output {stdout, outputFile}
@@ -353,7 +436,7 @@ func trunc(s string, n int) string {
 func init() {
 	register(&PropDef{
 		ID: "C06", Level: "model_checking",
-		Rule: "all sequences of length <=4 (thorough 5) over the 9-symbol line alphabet {command line A, command line B, other-component line, empty, whitespace-only, non-JSON text, legacy text-format line, truncated object, object+garbage} x {LF, CRLF} x {final newline, none} x 3 in-process channels (reader, plain file, gzip file) x 4 progress-bar modes x 2 flag sets; all sequences of length <=2 (thorough 3) through the real CLI x 3 input x 2 output channels x EOL x final newline, each twice. States = sequence prefixes, transitions = appended lines; oracle: out(seq) = concatenation of the one-line outputs, one-line outputs checked per class. distinct = (flag set, sequence)",
+		Rule:        "all sequences of length <=4 (thorough 5) over the 9-symbol line alphabet {command line A, command line B, other-component line, empty, whitespace-only, non-JSON text, legacy text-format line, truncated object, object+garbage} x {LF, CRLF} x {final newline, none} x 3 in-process channels (reader, plain file, gzip file) x 4 progress-bar modes x 2 flag sets; all sequences of length <=2 (thorough 3) through the real CLI x 3 input x 2 output channels x EOL x final newline, each twice. States = sequence prefixes, transitions = appended lines; oracle: out(seq) = concatenation of the one-line outputs, one-line outputs checked per class. distinct = (flag set, sequence)",
 		Assumptions: []string{"truncated objects and objects followed by garbage are borderline members of 'JSON object': their one-line output is taken as it is", "a line that panics is C07's concern and is left out of the alphabet (noted)"},
 		Run:         c06Run,
 	})
